@@ -27,7 +27,7 @@ func init() {
 		return k >= 2
 	})
 	p.Run = func(c *Ctx) {
-		cfg := gen.Cfg{ExprDepth: 2, BodyLen: 4, Nest: 5, Calls: true, If: true, For: true, Set: true, SetCap: true, FilterSec: true, Macros: true, Blocks: true}
+		cfg := gen.Cfg{ExprDepth: 2, BodyLen: 4, Nest: 5, Calls: true, If: true, For: true, Set: true, SetCap: true, FilterSec: true, Macros: true, Blocks: true, HostileText: true, BigText: true}
 		sub.Rapid(c, c.Share(c.Pick(20000, 1000000)), progGen(cfg))
 	}
 	Register(p)
